@@ -1,0 +1,9 @@
+//go:build verif
+// +build verif
+
+package c16
+
+import "gopkg.in/src-d/hercules.v10/internal/plumbing/identity"
+
+// ParseMailmap is identity.ParseMailmap (the parser of .mailmap used by GeneratePeopleDict).
+var ParseMailmap = identity.ParseMailmap
